@@ -432,8 +432,10 @@ def make_transforms(
 ) -> OptModelTransforms | None:
     variables = None
     if var_scales is not None or var_offsets is not None:
+        # scales given as Python ints are handed over as an integer array (a legitimate way to write positive scales)
+        all_int = var_scales is not None and all(isinstance(v, int) and not isinstance(v, bool) for v in var_scales)
         variables = VariableScaler(
-            None if var_scales is None else np.asarray(var_scales, dtype=np.float64),
+            None if var_scales is None else (np.asarray(var_scales) if all_int else np.asarray(var_scales, dtype=np.float64)),
             None if var_offsets is None else np.asarray(var_offsets, dtype=np.float64),
         )
     objectives: ObjectiveTransform | None = None
